@@ -12,6 +12,18 @@ from tplz3 import sre2z3
 MAXLEN = 256
 
 
+class _VList(list):
+    """violations are echoed as soon as they are found: a later solver query that hangs (z3 can ignore its
+    timeout on regex queries) must not lose them -- the driver collects ZVIOLATION lines of a killed worker."""
+
+    def append(self, v):
+        import json
+        import sys
+        sys.stdout.write("\nZVIOLATION " + json.dumps(v, default=str) + "\n")
+        sys.stdout.flush()
+        super().append(v)
+
+
 class Tally:
     def __init__(self):
         self.queries = 0
@@ -19,7 +31,7 @@ class Tally:
         self.solver_s = 0.0
         self.inconclusive: List[Dict[str, Any]] = []
         self.samples: List[Dict[str, Any]] = []
-        self.violations: List[Dict[str, Any]] = []
+        self.violations: List[Dict[str, Any]] = _VList()
 
     def result(self, name: str, bound: str = "", **extra) -> Dict[str, Any]:
         verdict = "confirmed"
@@ -29,7 +41,7 @@ class Tally:
             verdict = "inconclusive"
         d = dict(name=name, verdict=verdict, queries_total=self.queries, discharged=self.discharged,
                  solver_s=round(self.solver_s, 3), inconclusive=self.inconclusive[:20], samples=self.samples[:12],
-                 violations=self.violations[:20], bound=bound or f"|x| <= {MAXLEN}, code points <= U+2FFFF")
+                 violations=list(self.violations[:20]), bound=bound or f"|x| <= {MAXLEN}, code points <= U+2FFFF")
         d.update(extra)
         return d
 
